@@ -483,6 +483,24 @@ func c16Scenario(c *Ctx, idx int, r *Rng) (mline, mimpl, mcase string) {
 				log("commit")
 			}
 		case 9: // checkout the other branch and come back (post-checkout hook)
+			if len(modified) == 0 && readonly && r.Chance(30) {
+				// a user who ignores the protection edits a read-only lockable file, then throws the edit away with
+				// `git checkout -f` (same commit before and after): Git re-creates the file writable, the hook runs
+				if wr, ex := writable(f); ex && !wr && table()[f] != "alice" {
+					os.Chmod(filepath.Join(w.dir, f), 0o644)
+					if fh, err := os.OpenFile(filepath.Join(w.dir, f), os.O_APPEND|os.O_WRONLY, 0); err == nil {
+						fh.Write([]byte("scratch"))
+						fh.Close()
+					}
+					w.git("checkout", "-q", "-f")
+					log("chmod +w, edit %q, checkout -f", f)
+					c.R.Count("checkout.force-same-commit")
+					if wr2, ex2 := writable(f); ex2 && wr2 {
+						fail("a lockable file is writable after the checkout hook although the current user does not hold its lock", f+" (restored by `git checkout -f`)", "")
+					}
+					continue
+				}
+			}
 			if len(modified) == 0 {
 				w.git("checkout", "-q", "side")
 				w.git("checkout", "-q", "master")
